@@ -7,6 +7,9 @@ Agg/Check.vos Agg/Check.vok Agg/Check.required_vos: Agg/Check.v Ir/Syntax.vos Ir
 Agg/Instance.vo Agg/Instance.glob Agg/Instance.v.beautified Agg/Instance.required_vo: Agg/Instance.v Ir/Syntax.vo Ir/Fold.vo
 Agg/Instance.vio: Agg/Instance.v Ir/Syntax.vio Ir/Fold.vio
 Agg/Instance.vos Agg/Instance.vok Agg/Instance.required_vos: Agg/Instance.v Ir/Syntax.vos Ir/Fold.vos
+Agg/Loop.vo Agg/Loop.glob Agg/Loop.v.beautified Agg/Loop.required_vo: Agg/Loop.v Ir/Syntax.vo Ir/Fold.vo Agg/Instance.vo Agg/AntiUnify.vo Agg/MayInv.vo Agg/Solution.vo
+Agg/Loop.vio: Agg/Loop.v Ir/Syntax.vio Ir/Fold.vio Agg/Instance.vio Agg/AntiUnify.vio Agg/MayInv.vio Agg/Solution.vio
+Agg/Loop.vos Agg/Loop.vok Agg/Loop.required_vos: Agg/Loop.v Ir/Syntax.vos Ir/Fold.vos Agg/Instance.vos Agg/AntiUnify.vos Agg/MayInv.vos Agg/Solution.vos
 Agg/MayInv.vo Agg/MayInv.glob Agg/MayInv.v.beautified Agg/MayInv.required_vo: Agg/MayInv.v Ir/Syntax.vo Ir/Fold.vo Agg/Instance.vo Agg/AntiUnify.vo
 Agg/MayInv.vio: Agg/MayInv.v Ir/Syntax.vio Ir/Fold.vio Agg/Instance.vio Agg/AntiUnify.vio
 Agg/MayInv.vos Agg/MayInv.vok Agg/MayInv.required_vos: Agg/MayInv.v Ir/Syntax.vos Ir/Fold.vos Agg/Instance.vos Agg/AntiUnify.vos
@@ -151,9 +154,9 @@ Props/C08.vos Props/C08.vok Props/C08.required_vos: Props/C08.v Rules/Builtin.vo
 Props/C09.vo Props/C09.glob Props/C09.v.beautified Props/C09.required_vo: Props/C09.v Engine/RecFuel.vo
 Props/C09.vio: Props/C09.v Engine/RecFuel.vio
 Props/C09.vos Props/C09.vok Props/C09.required_vos: Props/C09.v Engine/RecFuel.vos
-Props/C10.vo Props/C10.glob Props/C10.v.beautified Props/C10.required_vo: Props/C10.v Engine/RecTheorems.vo
-Props/C10.vio: Props/C10.v Engine/RecTheorems.vio
-Props/C10.vos Props/C10.vok Props/C10.required_vos: Props/C10.v Engine/RecTheorems.vos
+Props/C10.vo Props/C10.glob Props/C10.v.beautified Props/C10.required_vo: Props/C10.v Engine/RecTheorems.vo Engine/AndOrEval.vo
+Props/C10.vio: Props/C10.v Engine/RecTheorems.vio Engine/AndOrEval.vio
+Props/C10.vos Props/C10.vok Props/C10.required_vos: Props/C10.v Engine/RecTheorems.vos Engine/AndOrEval.vos
 Props/C11.vo Props/C11.glob Props/C11.v.beautified Props/C11.required_vo: Props/C11.v Engine/RecTheorems.vo
 Props/C11.vio: Props/C11.v Engine/RecTheorems.vio
 Props/C11.vos Props/C11.vok Props/C11.required_vos: Props/C11.v Engine/RecTheorems.vos
